@@ -200,6 +200,9 @@ func (g *scenGen) assets() {
 	nq := r.Range(0, 3)
 	if g.o.QueryGroups {
 		nq = r.Range(2, 6)
+		if r.Chance(0.12) {
+			nq = r.Range(20, 45) // a workspace with many query-based groups: one contact change moves the contact into / out of several at once
+		}
 	}
 	for i := 0; i < nq; i++ {
 		q := fw.Pick(r, queryPool)
@@ -942,7 +945,7 @@ func (g *scenGen) action(ftype string, flowIdx int, loc M) M {
 			// not a URL the engine will call: no scheme, no host, other scheme, longer than 2048 characters, white space
 			"localhost/?cmd=success", "http://", "ftp://localhost/x", "mailto:bob@nyaruka.com", "http://localhost/?q=" + strings.Repeat("x", 2040), " ", "@contact.nope", "http://local host/",
 			// bodies that are a bare JSON value rather than an object
-			"http://localhost/?cmd=true", "http://localhost/?cmd=false", "http://localhost/?cmd=null", "http://localhost/?cmd=number", "http://localhost/?cmd=string", "http://localhost/?cmd=array", "http://localhost/?cmd=flags", "http://localhost/?cmd=empty"})
+			"http://localhost/?cmd=true", "http://localhost/?cmd=false", "http://localhost/?cmd=null", "http://localhost/?cmd=number", "http://localhost/?cmd=string", "http://localhost/?cmd=array", "http://localhost/?cmd=flags", "http://localhost/?cmd=empty", "http://localhost/?cmd=hugeexp", "http://localhost/?cmd=nested"})
 		if r.Chance(0.5) {
 			a["headers"] = M{"Accept": "application/json", "X-Name": "@contact.name", "X-Age": "@fields.age"}
 		}
